@@ -11,7 +11,7 @@ props="$@"; [ -z "$props" ] && props=$( (ls "$V/selftest"; ls "$V/seeded") | gre
 fail=0
 for p in $props; do
   # the corpus of a property = its hand-made patches + the independently seeded change (section 14)
-  for patch in "$V"/selftest/$p/*.patch "$V"/seeded/$p/patch.diff "$V"/seeded/${p}b/patch.diff "$V"/seeded/${p}c/patch.diff "$V"/seeded/${p}d/patch.diff "$V"/seeded/${p}e/patch.diff; do
+  for patch in "$V"/selftest/$p/*.patch "$V"/seeded/$p/patch.diff "$V"/seeded/${p}b/patch.diff "$V"/seeded/${p}c/patch.diff "$V"/seeded/${p}d/patch.diff "$V"/seeded/${p}e/patch.diff "$V"/seeded/${p}f/patch.diff; do
     [ -f "$patch" ] || continue
     # a seeded change recorded as outside the model (meta.json: result_now "NOT caught ...", DESIGN section 14)
     # is reported as such and does not make the corpus fail
